@@ -150,5 +150,8 @@ class WeightedSum(Component):
 
             self._out_data = result
             self._last_update = time
+            return self._out_data
 
-        return self._out_data
+        # same request time again (e.g. a second consumer): hand out a copy, the output
+        # refuses data that shares memory with what it returned before
+        return self._out_data.copy()
